@@ -1,4 +1,5 @@
 'use strict'
+const U = require('./util')
 // Independent literal extractor written from the statement of C14, on the acorn AST of the INPUT.
 const A = require('./astmon')
 
@@ -13,8 +14,7 @@ function utf8len (s) {
 // returns {entries:[{value,line,column,columnUtf16,ident,identLoose,astralBefore}], ambiguous:n}
 function extract (code, opts = {}) {
   const ast = A.parse(code, { module: !!opts.module, preserveParens: true, locations: true })
-  const lineStarts = [0]
-  for (let i = 0; i < code.length; i++) if (code[i] === '\n') lineStarts.push(i + 1)
+  const lineStarts = U.lineStarts(code)
   const entries = []
   function visit (n, parent, key, ctx) {
     if (!A.isObj(n)) return
@@ -101,7 +101,7 @@ function compare (expected, reported, code) {
     matched.add(e)
     if (!e.identLoose && (e.ident || null) !== (r.ident || null)) problems.push({ kind: 'wrong-ident', detail: `${JSON.stringify(r.value.slice(0, 30))} at ${k}: ident ${r.ident}, expected ${e.ident}` })
     // the input text at the reported position must be a quote
-    const lines = code.split('\n')
+    const lines = U.splitLines(code)
     const lineText = lines[r.line - 1] || ''
     const bomShift = (r.line === 1 && code.charCodeAt(0) === 0xFEFF) ? 1 : 0
     const ch = lineText[r.column - 1 + bomShift]
